@@ -105,6 +105,14 @@ void run_case(ByteSource& s, CaseInfo& ci) {
     CHECK(err <= tol + TINY, fmt("C03|EvolveBuffer|not-conjugation|d=%d", d), "d=%d slot %d lib=%.17g model=%.17Lg err=%.3Lg tol=%.3Lg H=%s t=%.17g A=%s", d, i, R2[i], want[i], err, tol, vec_str(h).c_str(), t, vec_str(a).c_str());
     CHECK(fabsl((ld)R2[i] - (ld)R[i]) <= 2 * tol + TINY, fmt("C03|EvolveBuffer|differs-from-direct|d=%d", d), "slot %d %.17g vs %.17g", i, R2[i], R[i]);
   }
+  {  // in-place forms: the state is overwritten by its own evolution
+    SU_vector V1 = A; V1 = V1.Evolve(buf);
+    SU_vector V2 = A; V2 = V2.Evolve(H, t);
+    for (int i = 0; i < d * d; i++) {
+      CHECK(bit_equal(V1[i], R2[i]) || V1[i] == R2[i], fmt("C03|EvolveBuffer|in-place-differs|d=%d", d), "slot %d: v=v.Evolve(buffer) gives %.17g, fresh target %.17g", i, V1[i], R2[i]);
+      CHECK(bit_equal(V2[i], R[i]) || V2[i] == R[i], fmt("C03|Evolve|in-place-differs|d=%d", d), "slot %d: v=v.Evolve(H,t) gives %.17g, fresh target %.17g", i, V2[i], R[i]);
+    }
+  }
   if (sub == 1) {  // several vectors through one prepared buffer
     for (int rep = 0; rep < 2; rep++) {
       std::vector<double> b = gen_dense(s, d);
